@@ -451,6 +451,17 @@ PART_B_MODULES = ["c01", "c02", "c05", "c13", "c12", "c10"]
 UB_LINE = re.compile(r"^(?P<file>\S+?):(?P<line>\d+):(?P<col>\d+): runtime error: (?P<msg>.*)$")
 
 
+def _is_aint_add_line(f, line, default):
+    """does the reported source line call MPI_Aint_add?  (default when the source cannot be read)"""
+    try:
+        with open(f, errors="replace") as fh:
+            lines = fh.readlines()
+        n = int(line)
+        return "MPI_Aint_add" in "".join(lines[max(0, n - 2):n + 1])
+    except (OSError, ValueError):
+        return default
+
+
 def _scan_sanitizer(text):
     """UBSan diagnostics located in library code (sources under /repo/src or generated from its .m4 files)"""
     out = []
@@ -463,9 +474,10 @@ def _scan_sanitizer(text):
             continue
         if "/src/" in f or "/gen/" in f:
             msg = m.group("msg")
-            if "applying non-zero offset" in msg and "null pointer" in msg:
+            if "offset" in msg and "null pointer" in msg and _is_aint_add_line(f, m.group("line"), "applying non-zero offset" in msg):
                 # OpenMPI defines MPI_Aint_add(base, disp) as pointer arithmetic on (char*)base; the library legitimately calls it
-                # with relative addresses (base 0).  The report is about the MPI header's macro, not about library code.
+                # with relative addresses (base 0) or the address of an absent (NULL) array plus 0.  The report is about the MPI
+                # header's macro expanded at that line, not about library code.
                 continue
             what = re.sub(r"0x[0-9a-f]+", "ADDR", msg)
             what = re.sub(r"-?\b\d[\d.e+]*\b", "N", what)[:90]
@@ -532,7 +544,7 @@ def part_b(ctx_like):
     ASan+UBSan build; any sanitizer report located in library code is a violation with the script's case as replay."""
     from hypothesis import given, settings, seed, HealthCheck, Phase, Verbosity
     import importlib
-    n_each = {"quick": 50, "thorough": 1000}[ctx_like.tier]
+    n_each = {"quick": 120, "thorough": 1000}[ctx_like.tier]
     out = []
     nrun = 0
     nt = set()
